@@ -64,6 +64,9 @@ func (g *Gen) ViolateOne() *Constraint {
 		g.O.MaxAlts = 3
 	}
 	q := g.Valid()
+	for len(q.Crits) < 2 || len(q.Alts) < 2 {
+		q = g.Valid() // criteria mixing does nothing below two criteria: keep every constraint observable
+	}
 	g.O = saved
 	b := CloneJ(q.Body).(map[string]interface{})
 	mp := jmap(b["methodParameters"])
@@ -268,7 +271,20 @@ func (g *Gen) Hostile() (kind string, body []byte) {
 	r := g.R
 	q := g.Valid()
 	valid := JSONBytes(q.Body)
-	switch r.Intn(14) {
+	switch r.Intn(17) {
+	case 14, 15, 16:
+		// well-formed request, one numeric parameter replaced by an unusual value
+		b := CloneJ(q.Body).(map[string]interface{})
+		var leaves []leafRef
+		collectNumericLeaves(b["methodParameters"], &leaves)
+		collectNumericLeaves(b["biases"], &leaves)
+		if len(leaves) == 0 {
+			return "json-scalar", []byte("{}")
+		}
+		lf := leaves[r.Intn(len(leaves))]
+		v := r.PickF(0, -1, -0.2, 0.1, 1, 2, 1e6, -1e6, 0.5)
+		lf.set(v)
+		return "unusual-parameter:" + lf.name, JSONBytes(b)
 	case 0:
 		return "empty-body", []byte{}
 	case 1:
@@ -330,5 +346,34 @@ func (g *Gen) Hostile() (kind string, body []byte) {
 		return "mistyped-method-parameter", JSONBytes(b)
 	default:
 		return "json-scalar", []byte(r.PickS(`null`, `42`, `"str"`, `[]`, `{}`, `[{}]`, `true`))
+	}
+}
+
+type leafRef struct {
+	name string
+	set  func(v float64)
+}
+
+// collectNumericLeaves lists every numeric leaf below v in a deterministic order.
+func collectNumericLeaves(v interface{}, out *[]leafRef) {
+	switch x := v.(type) {
+	case map[string]interface{}:
+		for _, k := range sortedKeys(x) {
+			k := k
+			if _, ok := x[k].(float64); ok {
+				*out = append(*out, leafRef{name: k, set: func(nv float64) { x[k] = nv }})
+			} else {
+				collectNumericLeaves(x[k], out)
+			}
+		}
+	case []interface{}:
+		for i := range x {
+			i := i
+			if _, ok := x[i].(float64); ok {
+				*out = append(*out, leafRef{name: "[]", set: func(nv float64) { x[i] = nv }})
+			} else {
+				collectNumericLeaves(x[i], out)
+			}
+		}
 	}
 }
